@@ -50,6 +50,28 @@ def jobs(tier, seed):
         outs = c1["out"] + c2["out"]
         keep = [v for v in outs if rng.random() < 0.25]
         out.append({"kind": "random:" + w, "wiring": w, "c1": c1, "c2": c2, "order": rng.choice(["12", "21"]), "keep": keep, "simplify": rng.random() < 0.6, "tactics": rng.choice(orders)})
+    # three coupled links: the consumer's guarantee (or assumption) mentions all three internal variables, the
+    # producer's guarantees couple them with near-dominant weights (Kaykobad boundary of tactics 1/3, tactic 5 rows)
+    n3 = 40 if tier == "quick" else 500
+    ys = ["y0", "y1", "y2"]
+    for i in range(n3):
+        sgn = rng.choice([-1, 1])
+        g1 = []
+        for r, dv in enumerate(ys):
+            row = {dv: 1}
+            for v in ys:
+                if v != dv and rng.random() < 0.5:
+                    row[v] = rng.choice([0.4, 0.5, 0.6, 0.6, 0.75])
+            row[f"x{r}"] = -1
+            g1.append({k: sgn * v for k, v in row.items()})
+        c1 = {"in": ["x0", "x1", "x2"], "out": ys, "a": [], "g": g1}
+        where = rng.choice(["g", "g", "a"])
+        t = {v: -sgn for v in ys}
+        if where == "g":
+            c2 = {"in": ys, "out": ["z"], "a": [], "g": [dict(t, z=sgn)]}
+        else:
+            c2 = {"in": ys, "out": ["z"], "a": [{v: sgn for v in ys}], "g": [{"z": 1, "y0": -1}]}
+        out.append({"kind": "three-links:" + where, "wiring": "three-links", "c1": c1, "c2": c2, "order": rng.choice(["12", "21"]), "keep": [], "simplify": rng.random() < 0.5, "tactics": rng.choice([None, [1], [3], [1, 2, 3, 4, 5], [5, 1]])})
     return out
 
 
